@@ -26,3 +26,18 @@ def classify(e, w, h):
     if n == "svt_av1_highbd_warp_affine":
         return ("warp_aff", 0, 0, 1, 0)
     return None
+
+
+# what each driver enumerates (copied into the evidence; full statement in the header comments of the C sources)
+DOC = {
+    'conv_lbd':
+        "kernel selected as the callers do (convolve[sx!=0][sy!=0][is_compound]); every (w,h) the callers pass (luma, 4:2:0 chroma, sub-8x8, OBMC; compound: min(W,H)>=8 + chroma halves); the library's own InterpFilterParams objects for x and y independently (4 filter types, 4-tap variants for dimensions <= 4) x subpel {1,4,8,15} quick / 1..15 thorough (and the intra-block-copy BILINEAR form); ConvolveParams from get_conv_params_no_round: 11 compound modes (no-avg, avg, 8 distance weight pairs), CONV_BUF stride {64,128} pre-filled over its valid range; source strides/misalignments x destination strides/offsets (4x4) x pattern alphabet + tap-sign stress patterns; dst and CONV_BUF compared over the whole allocation",
+    'conv_hbd':
+        'as conv_lbd for bit depth 8, 10, 12 (quick: full stride product at 10-bit only)',
+    'conv8_1d':
+        'svt_aom_convolve8_horiz/vert as svt_aom_upsampled_pred calls them: 22 block sizes x 2 call forms x 3 filter tables x 7 sub-pel rows x pattern alphabet x source stride',
+    'wiener_conv':
+        'w {16,32,48,64} x h (quick 16 values, thorough 1..64) x 28 symmetric filters per direction inside the coded coefficient ranges (7/5/3-tap paths) x patterns x strides; bit depth 8,10,12 for highbd',
+    'warp_aff':
+        'affine models accepted by svt_get_shear_params (318 quick / 2900 thorough) x block sizes 8..64 (128 thorough) x positions incl. every picture-edge column class x subsampling x 12 conv modes x patterns',
+}
